@@ -376,6 +376,14 @@ def fixeddict(name, *entries, **kwargs):
 
     __dict__["update"] = update
 
+    def __ior__(self, other):
+        # dict.__ior__ (Python 3.9+) would bypass __setitem__ and so allow
+        # undeclared keys to be inserted
+        self.update(other)
+        return self
+
+    __dict__["__ior__"] = __ior__
+
     def __repr__(self):
         return "{}({{{}}})".format(
             self.__class__.__name__,
